@@ -356,7 +356,7 @@ pub fn run_batch(exe: &Path, prop: &str, tier: Tier, seed: u64, count: u64, work
     let mut agg = Agg::default();
     let mut crashes = Vec::new();
     let mut live = slots.len();
-    let hang_limit = Duration::from_secs(std::env::var("VERIF_HANG_S").ok().and_then(|s| s.parse().ok()).unwrap_or(600));
+    let hang_limit = hang_limit();
     while live > 0 {
         let mut closed: Option<usize> = None;
         match rx.recv_timeout(Duration::from_millis(500)) {
@@ -541,19 +541,22 @@ pub fn replay(exe: &Path, path: &Path) -> i32 {
         }
     };
     if rf.process_death {
-        let st = Command::new(exe).arg("replay-case").arg(path).stdout(Stdio::null()).stderr(Stdio::null()).status();
-        return match st {
-            Ok(st) if exit_signal(&st).is_some() => {
+        let expect_hang = rf.signature.contains("does not return");
+        let limit = if expect_hang { Duration::from_secs(20) } else { hang_limit() };
+        let end = run_child(Command::new(exe).arg("replay-case").arg(path), limit);
+        return match (end, expect_hang) {
+            (ChildEnd::Signaled(sig), false) => {
                 println!("VIOLATION property={} replay={}", rf.property, path.display());
-                println!("  {} {}: process killed by signal {:?}", rf.clause, rf.signature, exit_signal(&st));
+                println!("  {} {}: process killed by signal {}", rf.clause, rf.signature, sig);
                 1
             }
-            Ok(_) => {
-                eprintln!("replay did not reproduce: the process survived");
-                2
+            (ChildEnd::TimedOut, true) => {
+                println!("VIOLATION property={} replay={}", rf.property, path.display());
+                println!("  {} {}: the case did not finish within {} s (a healthy case takes milliseconds)", rf.clause, rf.signature, limit.as_secs());
+                1
             }
-            Err(e) => {
-                eprintln!("cannot spawn: {}", e);
+            (other, _) => {
+                eprintln!("replay did not reproduce: child ended with {:?}", other);
                 2
             }
         };
@@ -603,18 +606,64 @@ pub fn replay_case(path: &Path) -> i32 {
 }
 
 /// Minimise a case whose failure is the death of the process, one child per candidate.
-fn minimise_crash(exe: &Path, case: AnyCase, scratch: &Path) -> (AnyCase, usize) {
+#[derive(Debug, Clone, Copy, PartialEq, Eq)]
+pub enum ChildEnd {
+    Exited(i32),
+    Signaled(i32),
+    /// Killed by us after the time limit (the hang backstop).
+    TimedOut,
+    Failed,
+}
+
+/// Run a child to completion or kill it after `limit`.
+pub fn run_child(cmd: &mut Command, limit: Duration) -> ChildEnd {
+    let mut child = match cmd.stdin(Stdio::null()).stdout(Stdio::null()).stderr(Stdio::null()).spawn() {
+        Ok(c) => c,
+        Err(_) => return ChildEnd::Failed,
+    };
+    let t0 = Instant::now();
+    loop {
+        match child.try_wait() {
+            Ok(Some(st)) => {
+                return match exit_signal(&st) {
+                    Some(s) => ChildEnd::Signaled(s),
+                    None => ChildEnd::Exited(st.code().unwrap_or(-1)),
+                }
+            }
+            Ok(None) => {
+                if t0.elapsed() > limit {
+                    let _ = child.kill();
+                    let _ = child.wait();
+                    return ChildEnd::TimedOut;
+                }
+                std::thread::sleep(Duration::from_millis(if t0.elapsed() < Duration::from_millis(200) { 2 } else { 50 }));
+            }
+            Err(_) => return ChildEnd::Failed,
+        }
+    }
+}
+
+pub fn hang_limit() -> Duration {
+    Duration::from_secs(std::env::var("VERIF_HANG_S").ok().and_then(|s| s.parse().ok()).unwrap_or(60))
+}
+
+/// Minimise a case whose failure is the death (or the hang) of the process, one
+/// child per candidate. A candidate counts only if it fails the same way.
+fn minimise_crash(exe: &Path, case: AnyCase, scratch: &Path, hang: bool) -> (AnyCase, usize) {
     let dies = |c: &AnyCase| -> bool {
         let f = scratch.join("cand.json");
         if std::fs::write(&f, serde_json::to_string(c).unwrap_or_default()).is_err() {
             return false;
         }
-        match Command::new(exe).arg("replay-case").arg(&f).stdout(Stdio::null()).stderr(Stdio::null()).status() {
-            Ok(st) => exit_signal(&st).is_some(),
-            Err(_) => false,
+        // a healthy case runs in milliseconds: ten seconds without an exit is a hang
+        let end = run_child(Command::new(exe).arg("replay-case").arg(&f), Duration::from_secs(10));
+        match end {
+            ChildEnd::Signaled(_) => !hang,
+            ChildEnd::TimedOut => hang,
+            _ => false,
         }
     };
-    shrink::shrink(case, |c| c.candidates(), dies, |c| serde_json::to_string(c).unwrap_or_default(), 250)
+    shrink::shrink(case, |c| c.candidates(), dies, |c| serde_json::to_string(c).unwrap_or_default(), if hang { 60 } else { 250 })
 }
 
 // ---------------------------------------------------------------------------
@@ -685,32 +734,49 @@ pub fn check(exe: &Path, prop: &str, tier: Tier) -> i32 {
     let other_props: BTreeMap<String, u64> = agg.seen.iter().filter(|(k, _)| !k.starts_with(prop)).map(|(k, v)| (k.clone(), v.0)).collect();
 
     // process deaths: attribute to a case, minimise in child processes
+    let mut hangs_handled = 0;
     for c in &crashes {
+        let was_hang = c.how.contains("hang backstop");
+        if was_hang {
+            // every hung worker costs a full backstop period to re-examine; two are enough
+            hangs_handled += 1;
+            if hangs_handled > 2 {
+                continue;
+            }
+        }
         let crash_file = scratch.join("crash-case.json");
         let _ = std::fs::remove_file(&crash_file);
-        let st = Command::new(exe)
-            .arg("one")
-            .arg(prop)
-            .arg(if tier == Tier::Quick { "quick" } else { "thorough" })
-            .arg(seed.to_string())
-            .arg(c.run_index.to_string())
-            .arg(&crash_file)
-            .stdout(Stdio::null())
-            .stderr(Stdio::null())
-            .status();
-        let died = matches!(&st, Ok(s) if exit_signal(s).is_some());
+        let mut cmd = Command::new(exe);
+        cmd.arg("one").arg(prop).arg(if tier == Tier::Quick { "quick" } else { "thorough" }).arg(seed.to_string()).arg(c.run_index.to_string()).arg(&crash_file);
+        let end = run_child(&mut cmd, if was_hang { Duration::from_secs(30) } else { hang_limit() });
         let case: Option<AnyCase> = std::fs::read_to_string(&crash_file).ok().and_then(|s| serde_json::from_str(&s).ok());
-        match (died, case) {
-            (true, Some(case)) => {
+        match (end, case) {
+            (ChildEnd::Signaled(sig_no), Some(case)) => {
                 let original_size = case_size(&case);
-                let (min, execs) = minimise_crash(exe, case, &scratch);
-                let sig_no = st.as_ref().ok().and_then(exit_signal).unwrap_or(0);
+                let (min, execs) = minimise_crash(exe, case, &scratch, false);
                 violations.push((
                     Minimised {
                         property: "C03".into(),
                         clause: "O3.1".into(),
                         sig: format!("process death (signal {}): stack overflow or abort", sig_no),
                         detail: format!("run {} of {}: {}; re-executed alone the process died again (signal {})", c.run_index, prop, c.how, sig_no),
+                        run_index: c.run_index,
+                        case: min,
+                        shrink_execs: execs,
+                        original_size,
+                    },
+                    true,
+                ));
+            }
+            (ChildEnd::TimedOut, Some(case)) => {
+                let original_size = case_size(&case);
+                let (min, execs) = minimise_crash(exe, case, &scratch, true);
+                violations.push((
+                    Minimised {
+                        property: "C03".into(),
+                        clause: "O3.1".into(),
+                        sig: "a call does not return (no read, no write, no result: hang backstop)".into(),
+                        detail: format!("run {} of {}: {}; re-executed alone the case in flight did not finish within {} s either", c.run_index, prop, c.how, hang_limit().as_secs()),
                         run_index: c.run_index,
                         case: min,
                         shrink_execs: execs,
